@@ -83,7 +83,11 @@ type c01issCase struct {
 	// "empty" (killed between the O_EXCL create and the write of the timestamp), "stale" (timestamp an hour old),
 	// "fresh" (timestamp of this moment: the waiters take over after the staleness bound of 2 x 5 s)
 	CrashLock string `json:"crash_lock,omitempty"`
-	Class     string `json:"class"`
+	// tid -> milliseconds the driver lets pass (once) before it grants the gate the thread is paused at, while
+	// nothing else can run: a slow holder. A waiter must still be waiting afterwards (FileStorage keeps the
+	// lock file fresh beyond the staleness bound).
+	HoldMs map[string]int `json:"hold_ms,omitempty"`
+	Class  string         `json:"class"`
 }
 
 type c01issStep struct {
@@ -171,6 +175,7 @@ type c01issRT struct {
 	ariCert  certmagic.Certificate
 	acme     *certmagic.ACMEIssuer
 	waited   int
+	heldBack bool
 	usedF    map[string]bool
 }
 
@@ -539,7 +544,11 @@ func (e *c01issEnv) hook(op *doubles.Op) error {
 	return nil
 }
 
-func (e *c01issEnv) wait(n int) error {
+var c01ErrHang = errors.New("no arrival within the bound")
+
+func (e *c01issEnv) wait(n int) error { return e.waitT(n, 90*time.Second) }
+
+func (e *c01issEnv) waitT(n int, bound time.Duration) error {
 	for i := 0; i < n; i++ {
 		select {
 		case a := <-e.arrivals:
@@ -550,7 +559,10 @@ func (e *c01issEnv) wait(n int) error {
 			} else {
 				rt.state, rt.gate = c01stGate, a
 			}
-		case <-time.After(90 * time.Second):
+		case <-time.After(bound):
+			if bound < 90*time.Second {
+				return c01ErrHang
+			}
 			return fmt.Errorf("lock-step driver: no arrival within 90 s (states %v)", e.states())
 		}
 	}
@@ -755,6 +767,14 @@ func (e *c01issEnv) pick() *c01issRT {
 		if len(pausedC) == 0 {
 			return nil
 		}
+		if ms := e.cs.HoldMs[strconv.Itoa(pausedC[0].id)]; ms > 0 && !pausedC[0].heldBack {
+			// a slow holder: let real time pass while it stays at its gate; if a waiter got through
+			// meanwhile it runs first (the holder is still inside its turn)
+			pausedC[0].heldBack = true
+			time.Sleep(time.Duration(ms) * time.Millisecond)
+			e.drainUnexpected()
+			return e.pick()
+		}
 		pausedC[0].unpaused = true
 		return pausedC[0]
 	}
@@ -828,7 +848,20 @@ func (e *c01issEnv) stepThread(rt *c01issRT) error {
 	if kind == "Unlock" && (f == c01fNone || f == c01fCancel) && !refused && len(waiters) > 0 {
 		expected++
 	}
-	if err := e.wait(expected); err != nil {
+	hung := false
+	if bound, ok := map[string]time.Duration{"empty": 8 * time.Second, "stale": 8 * time.Second, "fresh": 25 * time.Second}[e.cs.CrashLock]; ok && kind == "Lock" && expected == 1 && f == c01fNone {
+		// the lock file of a dead holder is in the way: the Locker has to take it over within its
+		// staleness rule; if it does not, the request hangs -- cancel it and record that
+		err := e.waitT(1, bound)
+		if err == c01ErrHang {
+			hung = true
+			rt.cancel()
+			err = e.wait(1)
+		}
+		if err != nil {
+			return err
+		}
+	} else if err := e.wait(expected); err != nil {
 		return err
 	}
 	// outcome
@@ -867,8 +900,17 @@ func (e *c01issEnv) stepThread(rt *c01issRT) error {
 			out = 2
 		}
 	}
+	if hung {
+		out = 0 // the Lock call itself was accepted; what failed is the acquisition
+	}
 	e.obs.Steps = append(e.obs.Steps, c01issStep{Tid: rt.id, Fault: f, Op: enc, Out: out, Desc: desc})
 	e.obs.Sched = append(e.obs.Sched, rt.id)
+	if hung {
+		e.obs.Deadlock = true
+		e.obs.Steps = append(e.obs.Steps, c01issStep{Tid: rt.id, Fault: c01fNone, Op: [4]int{7, e.lockT.id(e.b.LockID(a.op.Key)), 0, 0}, Out: 2,
+			Desc: "HUNG: the lock file of a dead holder was not taken over within the bound; request cancelled by the driver"})
+		e.obs.Sched = append(e.obs.Sched, rt.id)
+	}
 	e.last = rt.id
 	for _, o := range e.threads {
 		if o != rt && o.state == c01stBlocked {
@@ -922,6 +964,24 @@ func (e *c01issEnv) stepThread(rt *c01issRT) error {
 		}
 	}
 	return nil
+}
+
+// drainUnexpected: a thread the driver knows to be waiting for a held lock has announced an operation
+// (it got the lock although the holder is alive): record it, the model will refuse the step.
+func (e *c01issEnv) drainUnexpected() {
+	for {
+		select {
+		case a := <-e.arrivals:
+			rt := e.threads[a.tid]
+			if a.done {
+				rt.state, rt.res, rt.gate = c01stDone, a.res, nil
+			} else {
+				rt.state, rt.gate = c01stGate, a
+			}
+		default:
+			return
+		}
+	}
 }
 
 // dueCancelWait: a request whose planned cancellation while waiting for its lock is due
